@@ -1,3 +1,153 @@
-import Mqtt5V.Basic
+import Mqtt5V.Proofs.Replies
+/-! # C01 — publish success is truthful (reply-matching core)
+
+A QoS 1/2 publish completes successfully only through its reply waiter being completed with `ok` and the
+bytes of a reply.  In the model of `detail::replies`, for every history of registrations, arriving replies,
+resends, cancellations and fast-reply clearings, of any length:
+a waiter is completed with `ok` only with the bytes of a reply that was dispatched with exactly the
+(control code, packet identifier) the waiter registered for; keys are unique, so a reply completes at most
+one waiter; fast replies are discarded at every stream write, so a stored reply can only be consumed by a
+waiter if it arrived after the most recent write was initiated. -/
 namespace Mqtt5V.Props.C01
+open Mqtt5V.Model.Replies Mqtt5V.Proofs.Replies
+
+def runR (r : R) : List In → R × List Ev
+  | [] => (r, [])
+  | i :: is => let x := step r i; let y := runR x.1 is; (y.1, x.2 ++ y.2)
+
+/-- keys stay unique in every reachable state: a reply can match at most one waiter -/
+theorem keys_unique_reachable (is : List In) : KeysUnique (runR {} is).1 := by
+  suffices h : ∀ r, KeysUnique r → KeysUnique (runR r is).1 from h _ (by simp [KeysUnique])
+  induction is with
+  | nil => intro r h; exact h
+  | cons i is ih => intro r h; exact ih _ (step_keys r i h)
+
+/-- **an arriving reply completes only a waiter registered for exactly its control code and packet identifier**,
+with exactly the arriving bytes, and only one waiter -/
+theorem dispatch_completes_only_matching_waiter (r : R) (c p t : Nat) :
+    (step r (.dispatch c p t)).2 = [] ∨
+    ∃ h ∈ r.handlers, h.code = c ∧ h.pid = p ∧ (step r (.dispatch c p t)).2 = [⟨h.w, .ok, t⟩] := by
+  simp only [step]
+  cases hf : r.handlers.find? (sameKey c p) with
+  | none => exact Or.inl rfl
+  | some h =>
+    obtain ⟨hm, hc, hp⟩ := find_sameKey hf
+    exact Or.inr ⟨h, hm, hc, hp, rfl⟩
+
+/-- a newly registered waiter consumes a stored reply only if that reply has exactly its key -/
+theorem wait_consumes_only_matching_fast_reply (r : R) (w c p : Nat) :
+    ∀ e ∈ (step r (.wait w c p)).2, e.rc = .ok → e.w = w ∧ ∃ f ∈ r.fast, f.code = c ∧ f.pid = p ∧ f.tag = e.tag := by
+  intro e he hok
+  simp only [step] at he
+  cases hf : r.fast.find? (fun f => f.code == c && f.pid == p) with
+  | none =>
+    rw [hf] at he
+    simp only [List.append_nil] at he
+    split at he
+    · simp at he; subst he; cases hok
+    · cases he
+  | some f =>
+    rw [hf] at he
+    have hfm := List.mem_of_find?_eq_some hf
+    have hfk := List.find?_some hf
+    simp at hfk
+    simp only [List.mem_append, List.mem_singleton] at he
+    rcases he with he | he
+    · split at he
+      · simp at he; subst he; cases hok
+      · cases he
+    · subst he; exact ⟨rfl, f, hfm, hfk.1, hfk.2, rfl⟩
+
+/-- fast replies are discarded at every stream write (`clear_fast_replies` in `do_write`) -/
+theorem fast_replies_cleared_at_write (r : R) : (step r .clearFast).1.fast = [] := rfl
+
+/-- provenance invariant: every waiter was registered with its key, every stored reply was dispatched with its key -/
+def Prov (hist : List In) (r : R) : Prop :=
+  (∀ h ∈ r.handlers, In.wait h.w h.code h.pid ∈ hist) ∧ (∀ f ∈ r.fast, In.dispatch f.code f.pid f.tag ∈ hist)
+
+theorem step_prov (hist : List In) (r : R) (i : In) (h : Prov hist r) :
+    Prov (hist ++ [i]) (step r i).1 ∧
+    ∀ e ∈ (step r i).2, e.rc = .ok → ∃ c p, In.wait e.w c p ∈ hist ++ [i] ∧ In.dispatch c p e.tag ∈ hist ++ [i] := by
+  obtain ⟨hh, hf⟩ := h
+  have up : ∀ x, x ∈ hist → x ∈ hist ++ [i] := fun x hx => List.mem_append_left _ hx
+  cases i with
+  | wait w c p =>
+    constructor
+    · simp only [step]
+      constructor
+      · intro x hx
+        split at hx
+        all_goals (first
+          | (rename_i f _; split at hx <;> (first | exact up _ (hh x (List.mem_of_mem_erase hx)) | exact up _ (hh x hx)))
+          | skip)
+        all_goals
+          simp only [List.mem_append, List.mem_singleton] at hx
+          rcases hx with hx | hx
+          · split at hx <;> first | exact up _ (hh x (List.mem_of_mem_erase hx)) | exact up _ (hh x hx)
+          · subst hx; simp
+      · intro f hfm
+        split at hfm
+        · exact up _ (hf f (List.mem_of_mem_erase hfm))
+        · exact up _ (hf f hfm)
+    · intro e he hok
+      obtain ⟨hw, f, hfm, hc, hp, ht⟩ := wait_consumes_only_matching_fast_reply r w c p e he hok
+      refine ⟨c, p, by rw [hw]; simp, ?_⟩
+      have := hf f hfm
+      rw [hc, hp, ht] at this
+      exact up _ this
+  | dispatch c p t =>
+    constructor
+    · simp only [step]
+      split
+      · exact ⟨fun x hx => up _ (hh x (List.mem_of_mem_erase hx)), fun f hfm => up _ (hf f hfm)⟩
+      · refine ⟨fun x hx => up _ (hh x hx), fun f hfm => ?_⟩
+        simp only [List.mem_append, List.mem_singleton] at hfm
+        rcases hfm with hfm | hfm
+        · exact up _ (hf f hfm)
+        · subst hfm; simp
+    · intro e he hok
+      rcases dispatch_completes_only_matching_waiter r c p t with h0 | ⟨h, hm, hc, hp, hev⟩
+      · rw [h0] at he; cases he
+      · rw [hev] at he; simp at he; subst he
+        refine ⟨c, p, ?_, by simp⟩
+        have := hh h hm; rw [hc, hp] at this; exact up _ this
+  | resendUnanswered =>
+    refine ⟨⟨by simp [step], fun f hfm => up _ (hf f hfm)⟩, ?_⟩
+    intro e he hok; simp [step] at he; obtain ⟨_, _, rfl⟩ := he; cases hok
+  | cancelUnanswered =>
+    refine ⟨⟨by simp [step], fun f hfm => up _ (hf f hfm)⟩, ?_⟩
+    intro e he hok; simp [step] at he; obtain ⟨_, _, rfl⟩ := he; cases hok
+  | clearFast =>
+    refine ⟨⟨fun x hx => up _ (hh x hx), by simp [step]⟩, ?_⟩
+    intro e he; simp [step] at he
+  | clearPubrels =>
+    refine ⟨⟨fun x hx => up _ (hh x ((List.mem_filter.mp hx).1)), fun f hfm => up _ (hf f hfm)⟩, ?_⟩
+    intro e he hok; simp [step] at he; obtain ⟨_, _, rfl⟩ := he; cases hok
+
+/-- **Success has a cause**: in any history, a waiter completed with `ok` was registered for some (code, id) and a reply
+with exactly that code and id — the one whose bytes it received — arrived. -/
+theorem ok_completion_has_matching_reply (is : List In) :
+    ∀ e ∈ (runR {} is).2, e.rc = .ok → ∃ c p, In.wait e.w c p ∈ is ∧ In.dispatch c p e.tag ∈ is := by
+  suffices h : ∀ hist r, Prov hist r → ∀ e ∈ (runR r is).2, e.rc = .ok →
+      ∃ c p, In.wait e.w c p ∈ hist ++ is ∧ In.dispatch c p e.tag ∈ hist ++ is by
+    simpa using h [] {} (by simp [Prov])
+  induction is with
+  | nil => intro hist r _ e he; cases he
+  | cons i is ih =>
+    intro hist r hp e he hok
+    simp only [runR, List.mem_append] at he
+    have hs := step_prov hist r i hp
+    rcases he with he | he
+    · obtain ⟨c, p, h1, h2⟩ := hs.2 e he hok
+      have sub : ∀ x, x ∈ hist ++ [i] → x ∈ hist ++ i :: is := by
+        intro x hx; simp at hx ⊢; rcases hx with h | h; exact Or.inl h; exact Or.inr (Or.inl h)
+      exact ⟨c, p, sub _ h1, sub _ h2⟩
+    · obtain ⟨c, p, h1, h2⟩ := ih (hist ++ [i]) _ hs.1 e he hok
+      have e1 : hist ++ [i] ++ is = hist ++ i :: is := by simp
+      exact ⟨c, p, e1 ▸ h1, e1 ▸ h2⟩
+
+/-- non-vacuity: a reply that arrives before its waiter is consumed by it; a replaced waiter is aborted -/
+example : (runR {} [.dispatch 0x40 5 77, .wait 1 0x40 5, .wait 2 0x50 9, .wait 3 0x50 9, .dispatch 0x50 9 88]).2
+    = [⟨1, .ok, 77⟩, ⟨2, .aborted, 0⟩, ⟨3, .ok, 88⟩] := by decide
+
 end Mqtt5V.Props.C01
